@@ -838,3 +838,24 @@ func Recombine(ms []*Term) *Term {
 	}
 	return r
 }
+
+// Refine returns a term equal to x that carries the tighter interval [lo,hi]; the caller guarantees
+// that the path condition implies lo <= x <= hi (terms are per-path, so this is sound).
+func Refine(x *Term, lo, hi *big.Int) *Term {
+	if x.Op == OpConst {
+		return x
+	}
+	nlo, nhi := x.Lo, x.Hi
+	if lo != nil && (nlo == nil || lo.Cmp(nlo) > 0) {
+		nlo = lo
+	}
+	if hi != nil && (nhi == nil || hi.Cmp(nhi) < 0) {
+		nhi = hi
+	}
+	if nlo == x.Lo && nhi == x.Hi {
+		return x
+	}
+	t := mk(OpAdd, x, CI(0))
+	t.Lo, t.Hi = nlo, nhi
+	return t
+}
